@@ -122,6 +122,7 @@ class Ctx(object):
         self.assume_no_overflow = True
         self.string_literals_as_ptr = True
         self.global_sorts = {}
+        self.log_stores = False   # append Event("store", ...) for every write to heap memory
 
 
 def fresh(prefix, sort):
@@ -188,10 +189,14 @@ class Exec(object):
         if k == "field":
             key = ("f", lv[1], sort)
             st.heap[key] = tm.store(self.heap_arr(st, key), (lv[2],), val)
+            if self.ctx.log_stores:
+                st.events.append(Event("store", lv[2], [tm.strc(lv[1]), val], val))
             return
         if k == "elem":
             key = ("m", sort)
             st.heap[key] = tm.store(self.heap_arr(st, key), (lv[1], lv[2]), val)
+            if self.ctx.log_stores:
+                st.events.append(Event("store", lv[1], [lv[2], val], val))
             return
         if k == "global":
             st.locals[("g", lv[1])] = val
